@@ -92,6 +92,7 @@ type expectation struct {
 	why     string // which item causes mustErr / mayErr
 	model   reflect.Value
 	bug     string // inconsistency of the enumeration itself
+	causes  int    // number of mappings that cannot be moved as they are; >= 2: which one the run trips over first is not determined
 }
 
 func expect(p *Program, gens [2]func() any) expectation {
@@ -110,6 +111,7 @@ func expect(p *Program, gens [2]func() any) expectation {
 			v, st := mget(orig[it.Src], it.From)
 			switch st {
 			case gDynBad:
+				ex.causes++
 				if !inf.RtChecked && !(len(it.From) == 0) {
 					ex.bug = "model: dynamic failure on a statically typed path: " + it.String()
 				}
@@ -119,6 +121,7 @@ func expect(p *Program, gens [2]func() any) expectation {
 				}
 				continue
 			case gAbsent, gNilPtr:
+				ex.causes++
 				ex.mayErr = true
 				if ex.why == "" {
 					ex.why = "unspecified: " + it.String() + " meets an absent key / nil pointer in " + renderAny(orig[it.Src])
@@ -129,6 +132,7 @@ func expect(p *Program, gens [2]func() any) expectation {
 		}
 		switch mset(root, it.To, val) {
 		case sMismatch:
+			ex.causes++
 			if it.Src == slotStatic || !inf.RtChecked {
 				ex.bug = "model: statically typed item not assignable: " + it.String()
 			}
@@ -260,6 +264,14 @@ func checkRuns(p *Program, decl []Call, c compiled, vals []string, stream bool, 
 		good := true
 		desc := ""
 		switch {
+		case ex.causes >= 2 && (o.Panic != "" || o.Err != nil):
+			// several mappings cannot be moved: whether the run panics or fails, and with which message, depends
+			// on which one it meets first (map iteration); every single cause is judged by the simpler programs
+			desc = "fails"
+			st.outcomes["run:"+mode+":fails-with-several-causes"]++
+			if o.Panic != "" {
+				st.counters["several_causes_run_panicked:"+mode]++
+			}
 		case o.Panic != "":
 			desc = "panic"
 			good = false
@@ -333,13 +345,15 @@ func checkRuns(p *Program, decl []Call, c compiled, vals []string, stream bool, 
 		} else if desc != first {
 			varies = true
 		}
+		if varies && i >= 4 {
+			break // n > 5 only serves to see a variation again in -replay
+		}
 		if good {
 			st.validated++
 		}
 	}
 	if varies {
-		// the per-run findings above may differ from replay to replay; the stable statement is this one
-		out = []finding{mk("nondeterministic-runs/"+mode, "the same compiled workflow gives different results for the same input over 5 runs")}
+		add(mk("nondeterministic-runs/"+mode, "the same compiled workflow gives different results for the same input when run repeatedly"))
 	}
 	return out
 }
@@ -679,7 +693,11 @@ func replayCase(cs *Case, quick bool) error {
 		if pv != "" || err != nil {
 			return nil // no longer accepted
 		}
-		fs = checkRuns(p, cs.Decl, c, cs.Vals, cs.Stream, 5, st)
+		n := 5
+		if strings.HasPrefix(cs.Sig, "nondeterministic-runs") {
+			n = 64
+		}
+		fs = checkRuns(p, cs.Decl, c, cs.Vals, cs.Stream, n, st)
 	}
 	for _, f := range fs {
 		if cs.Sig == "" || f.Sig == cs.Sig {
